@@ -52,7 +52,112 @@ def interval_table(ctx, rep, prog, op, rule, floor, desc):
                     "reference": str(r.get("expected")), "example": r.get("example")})
     rep.analysed_item("range::BoundSet::%s interpreted with callees (Bound::cmp, BoundSet::new, …) on %d abstract rows"
                       % (op, len(rows)))
+    if any("inconclusive" in r for r in rows) and op in ("allows_all", "allows_any", "intersect"):
+        interval_witness(ctx, rep, prog, op, rule)
     return rows
+
+
+def _cut(kind, side, v):
+    """position of a bound on the version line: (version or +-inf, 0 = just before it / 1 = just after it)"""
+    if kind == "U":
+        return None
+    if side == "L":
+        return (v, 0 if kind == "I" else 1)
+    return (v, 1 if kind == "I" else 0)
+
+
+def _cut_cmp(a, b, side):
+    from .. import minver
+    if a is None and b is None:
+        return 0
+    if a is None:
+        return -1 if side == "L" else 1
+    if b is None:
+        return 1 if side == "L" else -1
+    c = minver.vcmp(a[0], b[0])
+    return c if c else (a[1] > b[1]) - (a[1] < b[1])
+
+
+def interval_witness(ctx, rep, prog, op, rule):
+    """the interval abstraction did not apply to BoundSet::<op> (e.g. it compares version fields itself): search for
+    a concrete counterexample over all pairs of intervals with bounds from a small universe of structured versions
+    (release / prerelease of two neighbouring patch levels). A mismatch is genuine; none found leaves the check
+    inconclusive."""
+    import multiprocessing as mp
+    import os
+    from .. import minver
+    wrule = rule + "-WITNESS"
+    rep.rule(wrule, 0, "witness search on structured versions when the interval abstraction does not apply")
+    universe = minver.bound_universe(True)
+    alts = minver.alternatives(universe)
+    pairs = [(a, b) for a in alts for b in alts]
+    if not ctx.thorough:
+        pairs = pairs[::3]
+    _WS.update(prog=prog, op=op)
+    procs = min(16, os.cpu_count() or 1)
+    n = max(1, len(pairs) // (procs * 8))
+    chunks = [pairs[i:i + n] for i in range(0, len(pairs), n)]
+    with mp.get_context("fork").Pool(procs) as pool:
+        res = pool.map(_witness_worker, chunks)
+    ran = bad = 0
+    for part in res:
+        for st, detail, cls in part:
+            if st == "skip":
+                continue
+            ran += 1
+            if st == "ok":
+                rep.ok(wrule)
+            else:
+                bad += 1
+                if bad <= 3:
+                    rep.fail(wrule, "range::BoundSet::%s|%s|%s" % (op, wrule, cls), detail, example=detail)
+    rep.analysed_item("witness search for BoundSet::%s: %d pairs of concrete intervals, %d mismatches" % (op, ran, bad))
+
+
+_WS = {}
+
+
+def _witness_worker(chunk):
+    from .. import minver
+    from ..interp import Cell, Inconclusive, Interp, Panic, Ptr, is_some
+    prog, op = _WS["prog"], _WS["op"]
+    env = intervals.Env(prog)
+    out = []
+    for a, b in chunk:
+        ra = minver.build_range(prog, env, [a])
+        rb = minver.build_range(prog, env, [b])
+        A, B = ra.fields[0].items[0], rb.fields[0].items[0]
+        pol = minver.MinPolicy()
+        pol.witness = True
+        it = Interp(prog, pol, overrides={})
+        try:
+            r = it.call_body("range::BoundSet::" + op, [Ptr(Cell(A)), Ptr(Cell(B))])
+        except (Inconclusive, Panic):
+            out.append(("skip", None, None))
+            continue
+        (alk, alv), (auk, auv) = a
+        (blk, blv), (buk, buv) = b
+        la, ua, lb, ub = _cut(alk, "L", alv), _cut(auk, "U", auv), _cut(blk, "L", blv), _cut(buk, "U", buv)
+        lo = la if _cut_cmp(la, lb, "L") >= 0 else lb
+        up = ua if _cut_cmp(ua, ub, "U") <= 0 else ub
+        nonempty = True
+        if lo is not None and up is not None:
+            c = minver.vcmp(lo[0], up[0])
+            nonempty = c < 0 or (c == 0 and lo[1] < up[1])
+        text = "`%s` vs `%s`" % (minver.alt_str(a), minver.alt_str(b))
+        if op == "allows_all":
+            exp = _cut_cmp(la, lb, "L") <= 0 and _cut_cmp(ub, ua, "U") <= 0
+            got = r
+        elif op == "allows_any":
+            exp, got = nonempty, r
+        else:
+            exp, got = nonempty, is_some(r)
+        cls = "answered %s" % got
+        if got == exp:
+            out.append(("ok", None, None))
+        else:
+            out.append(("bad", "%s: %s = %s, the intervals say %s" % (text, op, got, exp), cls))
+    return out
 
 
 def set_sizes(ctx, op):
